@@ -126,7 +126,7 @@ def reuse_case(jp, rec, R, text, q, doc):
                                                  "expected_locations": mon.locs_only(want0),
                                                  "observed": mon.locs_only(mon.sig(r0[1])) if r0[0] == "ok" else mon.describe_outcome(r0)})
     for step in range(3):
-        r = mon.observe(lambda: list(c.finditer(doc)))
+        r = mon.observe((lambda: list(c.find(doc))) if step != 1 else (lambda: list(c.finditer(doc))))
         rec.monitor("M-find")
         want = mon.want_sig(SD.MODEL.find(q, doc))
         steps.append(D.short(doc, 300))
